@@ -325,7 +325,11 @@ func summarize(cov map[string]any) string {
 	sort.Strings(keys)
 	var sb strings.Builder
 	for _, k := range keys {
-		fmt.Fprintf(&sb, "%s=%v ", k, cov[k])
+		v := fmt.Sprintf("%v", cov[k])
+		if len(v) > 120 {
+			v = v[:120] + "..."
+		}
+		fmt.Fprintf(&sb, "%s=%s ", k, v)
 	}
 	return sb.String()
 }
